@@ -1087,6 +1087,52 @@ func genChain(r *vproto.Rng) *netCase {
 	return b.c
 }
 
+// wrap: node ids that agree modulo 256 on the two ends of one link (mutation N42: an id compared through a narrower
+// integer).  Ids are handed out in the order in which AddLink first sees an end point, so the links are NOT shuffled: a
+// serpentine chain of exactly 256 nodes added in order (ids 1..256), then for t = 1..k a new node X_t (id 256+t) joined to
+// chain node t (id t) by a LONG link and to chain node t+2 by a short one: the way t -> t+1 -> t+2 -> X_t (4 units of spacing) is far
+// cheaper than the long link t -> X_t - unless that link is taken to cost nothing.
+func genWrap(r *vproto.Rng) *netCase {
+	b := newBuilder(r, "wrap", true)
+	sp := float64(4 * r.Range(1, 3))
+	W := 16 * r.Range(1, 4)
+	pos := func(i int) geom.Point {
+		row, col := i/W, i%W
+		if row%2 == 1 {
+			col = W - 1 - col
+		}
+		return pt(float64(col)*sp, float64(row)*sp)
+	}
+	add := func(a, c geom.Point, det, speed float64, flip bool) {
+		ps := manhattan(a, c, det)
+		if flip {
+			for i, j := 0, len(ps)-1; i < j; i, j = i+1, j-1 {
+				ps[i], ps[j] = ps[j], ps[i]
+			}
+		}
+		b.c.links = append(b.c.links, link{pts: ps, speed: speed * b.scale})
+	}
+	spd := func() float64 {
+		if b.c.opt == "T" {
+			return pow2(r)
+		}
+		return 1
+	}
+	for i := 0; i+1 < 256; i++ {
+		add(pos(i), pos(i+1), 0, spd(), i > 0 && r.Bool())
+	}
+	k := r.Range(1, 6)
+	for t := 1; t <= k; t++ {
+		i := t - 1 // chain node with id t
+		X := pt(sp*float64(i+1), -sp) // two units of spacing from chain node t+2, like chain node t+1
+		add(pos(i), X, float64(8*r.Range(6, 12))*sp/4, 1.0/4, r.Bool()) // long and slow; X gets id 256+t
+		add(X, pos(i+2), 0, spd(), r.Bool())
+		b.c.qs = append(b.c.qs, query{pos(i), pos(i + 2), -1}, query{pos(i + 2), pos(i), -1}, query{pos(i), X, -1})
+	}
+	b.c.qs = append(b.c.qs, query{pos(0), pos(255), -1})
+	return b.c
+}
+
 // genGapNet: link end vertices that are only NEAR their node (inside op.PointEquals' relative tolerance, integers at
 // magnitudes ~1e9 so that every float operation on lengths and totals is exact): S--M, M'--T with M' = M + g2 towards T,
 // and a direct link S'--T with S' = S + g3, g3 < g2: the chain over M costs 2L - g2, the direct link 2L - g3.  An
@@ -1283,6 +1329,9 @@ func gen(seed uint64, tier string) {
 				c.rescale(r2)
 			}
 			fmt.Fprintln(out, c)
+		}
+		if i%6 == 0 {
+			fmt.Fprintln(out, genWrap(r2))
 		}
 	}
 	// the priority queue on its own (tie of the Lean heap model to container/heap + gonum's aStarQueue)
